@@ -6,7 +6,7 @@ LEVEL = "proof"
 RULE = ("correspondence: worlds with a cross section (oblique, reversed, both coordinate systems) queried through q2/t2/c2/g2 and q3; worlds without cross section must refuse. "
         "oracle (library only): every 2-D answer is compared with the 3-D answer at the point the statement describes (computed independently in double arithmetic: "
         "cs0 + x*u for Cartesian, angle atan2(z,x) and radius sqrt(x^2+z^2) for spherical), velocity blocks compared with (u.(vx,vy), vz, 0); continuous values within "
-        "1e-9 relative, discrete values (tag, jumps) exactly unless the 3-D answer changes within 1e-6 of the section length around the point. non-trivial = inside some feature.")
+        "1e-9 relative, discrete values (tag, jumps) exactly unless the 3-D answer changes within 1e-6 of the section length around the point. pairs of cross-section worlds are kept alive together and asked the same 2-D point one after the other (each must answer along its own section). non-trivial = inside some feature.")
 TRUSTED_BASE = ["libm of the platform for the oracle's independent lift"]
 ASSUMPTIONS = []
 
